@@ -1124,6 +1124,29 @@ class Engine(object):
     else:
       prevented.difference_update(row_ids)
 
+  def get_pending_trigger_recalcs(self):
+    """
+    Returns a dict mapping the node of each data column (i.e. one with a trigger formula) that is
+    awaiting recalculation to the set of its affected row_ids.
+    """
+    pending = {}
+    for node, rows in self.recompute_map.items():
+      table = self.tables.get(node.table_id)
+      if table and table.has_column(node.col_id) and not table.get_column(node.col_id).is_formula():
+        pending[node] = set(table.row_ids if rows == depend.ALL_ROWS else rows)
+    return pending
+
+  def reset_pending_trigger_recalcs(self, pending):
+    """
+    Forgets any scheduled recalculations of trigger formulas other than those in `pending`, a
+    value previously returned by get_pending_trigger_recalcs().
+    """
+    for node in self.get_pending_trigger_recalcs():
+      if node in pending:
+        self.recompute_map[node] = SortedSet(pending[node])
+      else:
+        self.recompute_map.pop(node, None)
+
   def rebuild_usercode(self):
     """
     Compiles the usercode from the schema, and updates all tables and columns to match.
